@@ -490,6 +490,8 @@ def r11_only_write_locks_across_transport_writes(ctx):
 
 def run(ctx):
     r11_only_write_locks_across_transport_writes(ctx)
+    from . import C20 as _C20p
+    _C20p.r17_panicking_index_methods(ctx, _C20p.input_reachable(ctx))   # the Alert / error text of the peer cannot panic the task that is about to release everybody
     from . import C11 as _C11o
     _C11o.r3_open_order(ctx)      # a stream is in the tables before its SYN is written: a close() that lands during that write drains it like any other
     r10_constructor_siblings(ctx)
